@@ -398,6 +398,10 @@ def run(chk: Check) -> int:
         gen = taghist.gen_recreate if i % 2 else (lambda rng, l: taghist.gen_history(rng, l, 20))
         cases.append((f"newline:{i}", CFGS[i % len(CFGS)], "nl", gen(rng, layout("nl"))))
 
+    nlate = chk.budget(300, 5000)
+    for i in range(nlate):
+        cases.append((f"latereg:{i}", CFGS[i % len(CFGS)], "late", taghist.gen_latereg(rng, layout("late"))))
+
     exh_len = chk.budget(3, 4)
     exh, nalpha = exhaustive_cases(exh_len)
     for i, ops in enumerate(exh):
